@@ -41,6 +41,7 @@ type Exec struct {
 	invoked       map[string]bool // names of function-typed params tracked
 	specMode      bool            // evaluating a contract expression: no obligations, no assumptions
 	defSeen       map[ssa.Value]bool
+	finalCells    map[ssa.Value]Value
 	nWF           int // number of hypotheses before the function's own requires were assumed
 	extraRequires []*SExpr
 	noReturnOK    bool
@@ -126,7 +127,7 @@ func (e *Exec) safe(kind string, st *State, goal *Term, pos token.Pos) {
 
 func NewExec(P *Program, C *Contracts, fn *ssa.Function) *Exec {
 	e := &Exec{P: P, C: C, fn: fn, ctx: newVCtx(), vals: map[ssa.Value]Value{}, params: map[string]Value{}, lets: map[string]Value{},
-		counts: map[string]int{}, callOrd: map[string]int{}, defSeen: map[ssa.Value]bool{}}
+		counts: map[string]int{}, callOrd: map[string]int{}, defSeen: map[ssa.Value]bool{}, finalCells: map[ssa.Value]Value{}}
 	e.topName = funcKey(fn)
 	e.fc = C.lookup(e.topName)
 	if e.fc == nil && fn.Origin() != nil {
@@ -779,15 +780,16 @@ func (e *Exec) doReturn(r *ssa.Return, st *State) {
 		oenv.inOld = true
 		id := e.scalarOf(oenv.eval(cs.Expr))
 		cnt := Sub(e.invGet(st, id), e.invGet(e.entry, id))
-		extra := ConstI(0, I64)
+		goal := Eq(cnt, ConstI(1, I64))
 		if cs.Unless != nil {
-			extra = Ite(cenv.withNeg(func() *Term { return cenv.evalBool(cs.Unless) }), ConstI(1, I64), ConstI(0, I64))
+			deferred := cenv.withNeg(func() *Term { return cenv.evalBool(cs.Unless) })
+			goal = Or(goal, And(Eq(cnt, ConstI(0, I64)), deferred))
 		}
 		props := cs.Props
 		if len(props) == 0 {
 			props = e.fc.Props
 		}
-		e.addObl("once", cs.Name+e.retSuffix(r), "exactly once: invoked("+cs.Name+") + (deferred ? 1 : 0) == 1   ["+cs.Text+"]", props, st, Eq(Add(cnt, extra), ConstI(1, I64)), r.Pos())
+		e.addObl("once", cs.Name+e.retSuffix(r), "exactly once: invoked("+cs.Name+") == 1, or not invoked and deferred   ["+cs.Text+"]", props, st, goal, r.Pos())
 	}
 	e.refinePost(st, vals, r)
 	if e.fc.HasModifies {
